@@ -227,6 +227,8 @@ def check_strip(acc, c, insts, case, ignore):
     acc.transitions += 1
     cc = dict(case, strip_ignore=ignore)
     try:
+        # the identical call made before, its result edited by the caller
+        space.scramble(cg.tx.strip_blackboxes(c, ignore_pins=ignore))
         r = cg.tx.strip_blackboxes(c, ignore_pins=ignore)
     except Exception as e:  # noqa: BLE001
         acc.violation("strip", f"raises:{common.exc_name(e)}", cc, repr(e))
